@@ -5,11 +5,7 @@ PLAN = {
     'C02': dict(level='proof', engines=['tasknative']),
     'C03': dict(level='proof', engines=['bundles']),
     'C04': dict(level='proof', engines=['keynative', 'matchnative']),
-    'C05': dict(level='other', engines=['matchnative'],
-                explanation='The matcher bodies (Hopcroft-Karp, hit-window search, note-matching matrices) are not verified deductively here: they are '
-                            'checked by exhaustive small-scope enumeration against brute-force maximum matching (bounded stand-in, the property\'s own '
-                            'quantifier: all graphs up to 4x5). Their contract "valid maximum matching of the stated predicate" is what every caller is '
-                            'verified against deductively (see C01/C04/C06/C07/C08 evidence).'),
+    'C05': dict(level='proof', engines=['matchnative']),
     'C06': dict(level='proof', engines=['forward', 'segnative', 'tasknative', 'matchnative']),
     'C07': dict(level='proof', engines=['tasknative', 'matchnative']),
     'C08': dict(level='proof', engines=['segnative', 'tasknative', 'multipitchnative']),
@@ -50,8 +46,8 @@ TEXTS = {
     'C04': ('Definitional postconditions against spec functions written from the cited definitions: P = mm/|est|, R = mm/|ref|, F_beta; tempo hits and P-score; key table; '
             'multipitch formulas; melody frame sums; alignment pc; transcription criteria relations. mm is the size of a maximum matching of the stated relation '
             '(matcher bodies: bounded).', None),
-    'C05': ('Bounded only (level other): Hopcroft-Karp, hit windows, match_events and the note matchers against brute-force maximum matching on exhaustive small scopes; '
-            'their contract is what all callers are verified against.', None),
+    'C05': ('Discharged: the chroma-wrapped (circular) distance predicate is exactly min(|a-b|, n-|a-b|) on residues with range [0, n/2]. The matcher bodies '
+            '(Hopcroft-Karp, hit windows, match_events, note matchers) are bounded: brute-force maximum matching on exhaustive small scopes; their contract is what all callers are verified against.', None),
     'C06': ('Swap lemmas from the callee contracts plus the transposition fact of maximum matchings: onset, beat, detection, transcription onset-only / no-offset, '
             'T-/L-measure role exchange, overseg/underseg forwarding (EUF), F symmetric at beta=1. Segment indices and pattern: bounded.', None),
     'C07': ('Monotonicity / nesting lemmas: hit relation inclusion => mm monotone => P, R monotone; with-offset <= no-offset <= onset-only; strict <= non-strict; '
@@ -87,7 +83,7 @@ for _p, (_claim, _note) in TEXTS.items():
         PLAN[_p]['note'] = _note or _COMMON_NOTE
         PLAN[_p].setdefault('technique', 'contract-based deductive verification: VCs generated from the real AST against sidecar contracts, discharged by z3/cvc5'
                             + ('; bounded stand-ins labelled as such' if PLAN[_p].get('engines') else ''))
-PLAN['C05']['technique'] = 'bounded stand-in (exhaustive small-scope enumeration against brute-force maximum matching); callers verified deductively against the assumed matcher contract'
+PLAN['C05']['technique'] = 'contracts on the tolerance predicates (circular distance) and on every caller of the matchers; matcher bodies by bounded exhaustive enumeration against brute-force maximum matching'
 PLAN['C15']['technique'] = 'frame (assigns) obligations per mutation site discharged by a flow-sensitive origin analysis with inferred callee summaries; native purity harness as bounded stand-in'
 PLAN['C03']['technique'] = 'symbolic execution of evaluate() over uninterpreted functions (EUF) against the documented bundle; z3 validity query per metric name'
 PLAN['C10']['technique'] = 'regular-language equivalence of the real pattern and the Harte grammar decided by z3; bounded enumeration of labels against an independent spec'
